@@ -1,6 +1,7 @@
 package variants
 
 import (
+	"reflect"
 	"time"
 
 	cconv "github.com/pip-services3-gox/pip-services3-commons-gox/convert"
@@ -436,7 +437,31 @@ func (c *Variant) Equals(obj *Variant) bool {
 	if value1 == nil || value2 == nil {
 		return value1 == value2
 	}
-	return c.typ == obj.typ && value1 == value2
+	if c.typ != obj.typ {
+		return false
+	}
+	// Arrays are compared element by element (slices cannot be compared with ==)
+	if c.typ == Array {
+		array1, array2 := c.AsArray(), obj.AsArray()
+		if len(array1) != len(array2) {
+			return false
+		}
+		for index := range array1 {
+			if array1[index] == nil || array2[index] == nil {
+				if array1[index] != array2[index] {
+					return false
+				}
+			} else if !array1[index].Equals(array2[index]) {
+				return false
+			}
+		}
+		return true
+	}
+	// Payloads of types that do not support == are compared deeply
+	if !reflect.TypeOf(value1).Comparable() || !reflect.TypeOf(value2).Comparable() {
+		return reflect.DeepEqual(value1, value2)
+	}
+	return value1 == value2
 }
 
 // Clone the variant value
